@@ -81,6 +81,7 @@ fn run(routine: &str, rest: &[String]) -> String {
         "pos_concurrent" => public::pos_concurrent(rest),
         "multi_move" => public::multi_move(rest),
         "multi_life" => public::multi_life(rest),
+        "multi_suspend" => public::multi_suspend(rest),
         "multi_movecursor" => public::multi_movecursor(rest),
         "multi_bottom" => bar::multi_bottom(rest),
         "multi_overflow" => bar::multi_overflow(rest),
